@@ -183,3 +183,36 @@ def crash_case(name, rng: random.Random, length=5, big=0.15, kt=None):
             lines.append("close"); lines.append("open")
     lines += ["close", "end"]
     return "\n".join(lines) + "\n"
+
+
+def fault_case(name, rng: random.Random, length=4, big=0.12):
+    """history + read-back of every key + two restart cycles with read-backs (for fail-at-k)"""
+    base = crash_case(name, rng, length=length, big=big).splitlines()
+    body = base[:-2]                      # drop the trailing close / end
+    keys = []
+    for l in body:
+        t = l.split()
+        if t[0] in ("put", "abort", "remove") and t[1] not in keys:
+            keys.append(t[1])
+    gets = [f"get {k}" for k in keys]
+    tail = gets + ["close", "open"] + gets + ["close", "open"] + gets + ["close", "end"]
+    return "\n".join(body + tail) + "\n"
+
+
+def crash_corpus():
+    """hand-written cases that run first: records straddling the 8 KiB writer buffer, rollover at
+    every position, crash during first-time initialisation and during recovery"""
+    return [
+        "case corpus_bigkey\ncfg kt=bytes n=100 sync=1\nopen\nput 6b31 68656c6c6f\nput G:7:9000 78\nremove G:7:9000\nclose\nend\n",
+        "case corpus_bigkey_edge\ncfg kt=bytes n=2 sync=1\nopen\nput G:3:8103 78\nput G:3:8104 79\nput G:3:8105 7a\nclose\nend\n",
+        "case corpus_roll1\ncfg kt=bytes n=1 sync=1\nopen\nput 61 01\nput 62 01\nput 61 02\nremove 62\nclose\nopen\nput 63 03\nclose\nend\n",
+        "case corpus_reopen\ncfg kt=string n=3 sync=1\nopen\nput 61 01\nput 62 02\nclose\nopen\nput 63 03\nput 61 03\nclose\nopen\nremove_range U U\nclose\nend\n",
+        "case corpus_ckpt\ncfg kt=u32 n=2 sync=1\nopen\nput 01000000 aa\ncheckpoint\nput 00010000 aa\nput 02000000 bb\ncheckpoint\nremove 01000000\nclose\nend\n",
+    ]
+
+
+def fault_corpus():
+    return [
+        "case corpus_f4\ncfg kt=bytes n=100 sync=1\nopen\nput 6b32 5858\nput 6b 5858\nremove 6b32\nget 6b\nget 6b32\nclose\nopen\nget 6b\nget 6b32\nclose\nopen\nget 6b\nclose\nend\n",
+        "case corpus_froll\ncfg kt=bytes n=1 sync=1\nopen\nput 61 01\nput 62 02\nput 61 03\nget 61\nget 62\nclose\nopen\nget 61\nget 62\nclose\nopen\nget 61\nget 62\nclose\nend\n",
+    ]
